@@ -88,7 +88,7 @@ class ColorMap:
         self.parent.modified_attributes = "color_map"
 
         if self.parent is not None:
-            self.parent.workspace.update_attribute(self, "color_map")
+            self.parent.workspace.update_attribute(self.parent, "color_map")
 
     @property
     def name(self) -> str:
@@ -101,6 +101,8 @@ class ColorMap:
     def name(self, value: str):
         self._name = str(value)
         self.parent.modified_attributes = "color_map"
+        if self.parent is not None:
+            self.parent.workspace.update_attribute(self.parent, "color_map")
 
     @property
     def parent(self):
